@@ -107,7 +107,9 @@ func casesForEntry(e *gen.Entry, o CaseOpts, seedIdx int) []Case {
 				}
 			}
 			// attribute name / equals sign being typed
-			for _, s := range []string{"", "a", "attr", "attr ", "attr =", "attr = ", "attr =fn(", "attr =[fn(1, ]", "attr =\"x", "  attr = true\n", "attr =\n", "blk {\n  attr = \n}\n", "blk {\n  attr =\n", "blk {\n  \n}\n"} {
+			for _, s := range []string{"", "a", "attr", "attr ", "attr =", "attr = ", "attr =fn(", "attr =[fn(1, ]", "attr =\"x", "  attr = true\n", "attr =\n", "blk {\n  attr = \n}\n", "blk {\n  attr =\n", "blk {\n  \n}\n",
+				// the same half-typed values on the attribute that has completion hooks and an address
+				"attr2 =fn(", "attr2 =fn(\n", "attr =fn(\n", "attr2 =[fn(1, ]", "attr2 =\"x", "attr2 =\n", "attr2 = fn(1,\n", "attr2 =    \n", "attr2 = # c\n", "attr2 = /* c */ \n", "attr2 =    "} {
 				out = append(out, Case{Entry: e, File: "main.tf", Text: s, Family: "prefix", PosTo: -1})
 			}
 			if o.Seqs {
